@@ -207,6 +207,13 @@ func (g *genCtx) schema(depth int, inplaceMin int) Doc {
 			add("additionalProperties", desc())
 		case 24:
 			if g.draft7 {
+				if r.chance(1, 2) {
+					// the tuple form with additionalItems, the empty tuple included
+					if r.chance(1, 3) {
+						add("items", DArr{})
+					}
+					add("additionalItems", pick(r, []Doc{DBool(false), desc(), DObj{{"type", DStr("string")}}}))
+				}
 				add("items", list(desc, 0, 3))
 			} else {
 				add("prefixItems", list(desc, 0, 3))
